@@ -71,6 +71,12 @@ Proof.
   rewrite H. rewrite <- !app_assoc. rewrite (Permutation_app_swap_app (owned_fl (flat_t tx))). done.
 Qed.
 
+Lemma cJSON_Delete_null h : cJSON_Delete None h = Ret (tt, h).
+Proof.
+  unfold cJSON_Delete, heap_fuel, bindM. destruct (Pos.to_nat (h_next h)) eqn:E; [|done].
+  pose proof (Pos2Nat.is_pos (h_next h)). lia.
+Qed.
+
 Section Reference.
   Variable oracle : nat -> bool.
 
@@ -174,7 +180,7 @@ Section Reference.
     destruct (add_item_to_array_sim h1 F1 p r (T r dr []) dp cs W1 Hpr Hroot Hp1 Href) as (S1 & S2 & S3).
     rewrite Hrem in S1, S2, S3.
     split; [done|]. split; [|split; [exact S2|split; [exact S3|split]]].
-    - unfold spec_add_reference_to_array, spec_create_reference. rewrite Hy. cbn [tdata cids tchildren]. exact S1.
+    - unfold spec_add_reference_to_array, spec_create_reference. rewrite Hy. change (cids (T y d csy)) with (tid <$> csy). cbn [tdata]. exact S1.
     - by apply live_below_upd_maps.
     - intros NL b Hb.
       assert (Ho' : owned (set_children p (cs ++ [T r dr []]) (remove_root r F1)) ≡ₚ owned F1).
@@ -203,7 +209,11 @@ Section Reference.
   Lemma cJSON_AddItemReferenceToObject_null_item h F p sb fresh copy :
     spec_add_reference_to_object F (Some p) (Some sb) None fresh copy = (F, false) /\
     cJSON_AddItemReferenceToObject oracle (Some p) (Some sb) None h = Ret (false, h).
-  Proof. split; reflexivity. Qed.
+  Proof.
+    split; [reflexivity|]. unfold cJSON_AddItemReferenceToObject. cbn [is_null orb].
+    rewrite (bindM_Ret _ _ _ _ _ (create_reference_null h)). cbn [add_item_to_object is_null orb].
+    rewrite bindM_ret. by rewrite (bindM_Ret _ _ _ _ _ (cJSON_Delete_null h)).
+  Qed.
 
   Lemma old_key_reference d ks : old_key (rd_reference d ks) = [].
   Proof. unfold old_key. cbn. by destruct (is_const _). Qed.
@@ -231,7 +241,8 @@ Section Reference.
     unfold cJSON_AddItemReferenceToObject. cbn [is_null orb].
     destruct (create_reference_sim h F y d (tid <$> csy) W LB Hyf) as [(Ho & Hrun & W1 & LB1 & NL1)|(Ho & Hrun & Hcf & Hrf)].
     2:{ right. exists (bump h), None. rewrite (bindM_Ret _ _ _ _ _ Hrun).
-        split; [reflexivity|]. split; [reflexivity|done]. }
+        split; [reflexivity|]. split; [|done]. cbn [add_item_to_object is_null orb].
+        rewrite bindM_ret. by rewrite (bindM_Ret _ _ _ _ _ (cJSON_Delete_null (bump h))). }
     set (r := h_next h) in *. set (dr0 := rd_reference d (tid <$> csy)) in *.
     set (h1 := new_node h dr0) in *. set (F1 := spec_create F r dr0) in *.
     rewrite (bindM_Ret _ _ _ _ _ Hrun).
@@ -254,15 +265,15 @@ Section Reference.
                   (or_intror eq_refl)) as [Hdel Hcf].
       fold r in Hdel, Hcf. rewrite (bindM_Ret _ _ _ _ _ Hdel).
       exists (free1 r (bump h1)), (Some r). split; [|split; [reflexivity|split; [exact Hcf|]]].
-      + unfold spec_add_reference_to_object, spec_create_reference. rewrite Hy. cbn [tdata cids tchildren].
+      + unfold spec_add_reference_to_object, spec_create_reference. rewrite Hy. change (cids (T y d csy)) with (tid <$> csy). cbn [tdata].
         fold dr0 F1. rewrite S1. cbn [spec_delete]. by rewrite Hrem.
       + exists (S (h_req h)). cbn. split; [lia|done].
     - left. assert (Ho2' : oracle (h_req h1) = false) by exact Ho2.
       destruct (add_item_to_object_sim_owned oracle h1 F1 p r sb dr0 dp [] csp W1 Hpr Hroot Hp1 Href s HR1 Hs1 Ho2')
         as (S1 & S2 & S3).
-      rewrite Hrem in S1, S2, S3. rewrite (old_key_reference d (tid <$> csy)) in S2, S3. cbn [free_all fold_left] in S2, S3.
+      rewrite Hrem in S1, S2, S3. assert (Hok : old_key dr0 = []) by apply old_key_reference. rewrite Hok in S2, S3. cbn [free_all fold_left] in S2, S3.
       cbn zeta. split; [done|]. split; [done|]. split; [|split; [|split; [exact S3|]]].
-      + unfold spec_add_reference_to_object, spec_create_reference. rewrite Hy. cbn [tdata cids tchildren].
+      + unfold spec_add_reference_to_object, spec_create_reference. rewrite Hy. change (cids (T y d csy)) with (tid <$> csy). cbn [tdata].
         fold dr0 F1. change (h_next h1) with (Pos.succ r) in S1. by rewrite S1.
       + by rewrite (bindM_Ret _ _ _ _ _ S2).
       + apply live_below_upd_maps. intros b Hb. cbn in Hb. cbn.
